@@ -149,7 +149,7 @@ def run(tier):
     ctx.assumptions += ["the independent RFC 8259 recogniser of the property is the TLA+ module JsonText, evaluated by TLC on the recorded output bytes",
                         "unchecked writes beyond the buffer are observed by ASan (heap write buffers of every starting capacity)"]
     # life cycle (spec/Sonic.tla): Dump of trees that were parsed, mutated through the API, copied and parsed again
-    D.lifecycle(ctx, "C06", builds[:2], 2 if q else 60, 25 if q else 40, 3)
+    D.lifecycle(ctx, "C06", builds[:2], 2 if q else 12, 25 if q else 40, 3)
     ctx.finish(rule="documents parsed from TLC-generated valid texts (all kinds, duplicate keys, every byte value in strings and keys, specials at "
                     "block offsets, wide containers) and re-assembled through the mutation API; serialised into write buffers of ~30 starting "
                     "capacities around the output length and the internal estimate; output validated by TLC (JsonText accepts it and it denotes "
